@@ -155,6 +155,12 @@ func (m *Machine) runG(g *G, fn Value, args []Value) {
 		case lenientSkip:
 			m.finish(Outcome{Kind: OutUnsupported, Msg: r.msg})
 			return
+		case internalErr:
+			if m.extra["debug"] != nil {
+				fmt.Fprintf(logw, "INTERNAL: %s\n target frames: %v\n%s\n", r.msg, r.frames, r.stack)
+			}
+			m.finish(Outcome{Kind: OutInternal, Msg: fmt.Sprintf("engine panic: %s in %v", r.msg, r.frames)})
+			return
 		default:
 			m.finish(Outcome{Kind: OutInternal, Msg: fmt.Sprintf("engine panic: %v", r)})
 			return
@@ -425,7 +431,12 @@ func (m *Machine) choose(label string, n int) int {
 	if n <= 1 {
 		return 0
 	}
-	in := m.path.NewInput(label, "choice", SBV(64))
+	kind := "choice"
+	switch label {
+	case "sched", "select", "maporder":
+		kind = "env-choice" // engine-internal nondeterminism: not part of the native replay vector
+	}
+	in := m.path.NewInput(label, kind, SBV(64))
 	in.Lo, in.Hi = 0, int64(n-1)
 	m.path.assert(BVCmp(OpBVUlt, in.T, BV(64, uint64(n))))
 	return int(m.path.Concretize(in.T))
